@@ -346,7 +346,11 @@ func (c *Component) addToIndexes(sess *SessionState) {
 	if c.exclusivity != nil && sess.MixedAccess {
 		tk := session.MakeTupleKey(sess.OuterVLAN, sess.InnerVLAN, sess.MAC)
 		owner := session.Owner{Protocol: session.ProtoPPPoE, SessionID: sess.SessionID, Key: tk}
-		if prev := c.exclusivity.Claim(tk, owner); prev != nil && prev.Protocol != session.ProtoPPPoE {
+		// Claim reports every OTHER session it displaced (a re-claim by the same
+		// session returns nil). A session of the other protocol is evicted; an
+		// older PPPoE session of this tuple (replayed PADR) has lost the tuple to
+		// this one as well and must not linger beside whoever owns it next.
+		if prev := c.exclusivity.Claim(tk, owner); prev != nil {
 			c.evictPreviousOwner(prev, tk)
 		}
 	}
@@ -400,12 +404,16 @@ func (c *Component) isMixedAccessSVLAN(svlan uint16) bool {
 }
 
 func (c *Component) evictPreviousOwner(prev *session.Owner, tk session.TupleKey) {
+	reason := "evicted by cross-protocol claim"
+	if prev.Protocol == session.ProtoPPPoE {
+		reason = "superseded by a newer PPPoE session on the tuple"
+	}
 	c.eventBus.Publish(events.TopicSubscriberTerminate, events.Event{
 		Source:    "pppoe",
 		Timestamp: time.Now(),
 		Data: &events.SubscriberTerminateEvent{
 			SessionID: prev.SessionID,
-			Reason:    "evicted by cross-protocol claim",
+			Reason:    reason,
 			Key:       &tk,
 		},
 	})
